@@ -1,6 +1,6 @@
 use crate::line::{LineV, blank_line, blank_cells, cleared, inserted, deleted};
 use crate::buffer::{min_int, max_int, unwrapped, erase_extent, erase_unwraps, erase_touches_row, lemma_erased_rows_unchanged, ScrollbackLimit};
-use crate::tabs::{tabs_sorted, default_tabs, mult8_in, tabs_below, tabs_upto, lemma_tabs_below_bounds};
+use crate::tabs::{tabs_sorted, default_tabs, mult8_in, tabs_below, tabs_upto, lemma_tabs_below_bounds, lemma_tabs_below_prefix, lemma_mult8_in};
 use crate::charset::translate_spec;
 use crate::pen::{sgr_upto, apply_sgr};
 use crate::MEM_MAX;
@@ -15,30 +15,27 @@ impl vstd::std_specs::cmp::PartialEqSpecImpl for CursorKeysMode {
     open spec fn eq_spec(&self, other: &CursorKeysMode) -> bool { *self == *other }
 }
 
-/// which groups of terminal state an operation is allowed to change
-pub struct Fm {
-    pub cursor: bool,    // cursor.col, cursor.row, pending_wrap
-    pub buffer: bool,    // the active buffer (cells, wrap marks, scrollback, trim flag)
-    pub dirty: bool,     // dirty_lines
-    pub pen: bool,
-    pub tabs: bool,
-    pub margins: bool,   // top_margin, bottom_margin
-    pub saved: bool,     // saved_ctx (the active screen's saved cursor context)
-    pub modes: bool,     // insert, origin, auto-wrap, new-line, cursor-keys, cursor.visible
-    pub charsets: bool,  // charsets, active_charset
-    pub other: bool,     // other_buffer, alternate_saved_ctx, active_buffer_type
-    pub geom: bool,      // cols, rows
-}
-
-pub open spec fn fm_none() -> Fm {
-    Fm { cursor: false, buffer: false, dirty: false, pen: false, tabs: false, margins: false, saved: false,
-         modes: false, charsets: false, other: false, geom: false }
-}
-
 pub open spec fn limit_of(l: Option<usize>) -> Option<ScrollbackLimit> {
     match l {
         Some(l) => Some(ScrollbackLimit { soft: l, hard: (l + l / 10) as usize }),
         None => None,
+    }
+}
+
+/// (opaque: a function of exactly the fields it constrains, so that it is preserved by
+/// congruence whenever those fields are untouched)
+#[verifier::opaque]
+pub open spec fn tabs_ok(t: Seq<usize>, cols: usize) -> bool {
+    &&& tabs_sorted(t)
+    &&& forall|i: int| 0 <= i < t.len() ==> 0 < (#[trigger] t[i]) < cols
+}
+
+#[verifier::opaque]
+pub open spec fn limits_ok(sl: Option<usize>, abt: BufferType, bl: Option<ScrollbackLimit>, obl: Option<ScrollbackLimit>) -> bool {
+    &&& (sl matches Some(l) ==> l <= MEM_MAX)
+    &&& match abt {
+        BufferType::Primary => bl == limit_of(sl) && obl == limit_of(Some(0usize)),
+        BufferType::Alternate => bl == limit_of(Some(0usize)) && obl == limit_of(sl),
     }
 }
 
@@ -48,20 +45,11 @@ pub open spec fn saved_default() -> SavedCtx {
 
 impl Terminal {
     /// [C18] stops strictly increasing, none at column 0, none at or beyond the width
-    pub open spec fn tabs_wf(&self) -> bool {
-        &&& tabs_sorted(self.tabs.0@)
-        &&& forall|i: int| 0 <= i < self.tabs.0@.len() ==> 0 < (#[trigger] self.tabs.0@[i]) < self.cols
-    }
+    pub open spec fn tabs_wf(&self) -> bool { tabs_ok(self.tabs.0@, self.cols) }
 
     /// [C13] which buffer carries which scrollback limit
     pub open spec fn limits_wf(&self) -> bool {
-        &&& (self.scrollback_limit matches Some(l) ==> l <= MEM_MAX)
-        &&& match self.active_buffer_type {
-            BufferType::Primary => self.buffer.scrollback_limit == limit_of(self.scrollback_limit)
-                && self.other_buffer.scrollback_limit == limit_of(Some(0usize)),
-            BufferType::Alternate => self.buffer.scrollback_limit == limit_of(Some(0usize))
-                && self.other_buffer.scrollback_limit == limit_of(self.scrollback_limit),
-        }
+        limits_ok(self.scrollback_limit, self.active_buffer_type, self.buffer.scrollback_limit, self.other_buffer.scrollback_limit)
     }
 
     /// everything in the invariant that does not depend on the active buffer having been
@@ -113,27 +101,6 @@ impl Terminal {
         &&& (self.active_buffer_type == BufferType::Alternate ==>
                 self.alternate_saved_ctx.cursor_col < self.other_buffer.cols
                 && self.alternate_saved_ctx.cursor_row < self.other_buffer.rows)
-    }
-
-    /// frame: every group not enabled in `m` is exactly what it was in `o`
-    pub open spec fn frame(&self, o: Terminal, m: Fm) -> bool {
-        &&& (m.cursor || (self.cursor.col == o.cursor.col && self.cursor.row == o.cursor.row
-                && self.pending_wrap == o.pending_wrap))
-        &&& (m.buffer || self.buffer == o.buffer)
-        &&& (m.dirty || self.dirty_lines == o.dirty_lines)
-        &&& (m.pen || self.pen == o.pen)
-        &&& (m.tabs || self.tabs == o.tabs)
-        &&& (m.margins || (self.top_margin == o.top_margin && self.bottom_margin == o.bottom_margin))
-        &&& (m.saved || self.saved_ctx == o.saved_ctx)
-        &&& (m.modes || (self.insert_mode == o.insert_mode && self.origin_mode == o.origin_mode
-                && self.auto_wrap_mode == o.auto_wrap_mode && self.new_line_mode == o.new_line_mode
-                && self.cursor_keys_mode == o.cursor_keys_mode && self.cursor.visible == o.cursor.visible))
-        &&& (m.charsets || (self.charsets == o.charsets && self.active_charset == o.active_charset))
-        &&& (m.other || (self.other_buffer == o.other_buffer && self.alternate_saved_ctx == o.alternate_saved_ctx
-                && self.active_buffer_type == o.active_buffer_type))
-        &&& (m.geom || (self.cols == o.cols && self.rows == o.rows))
-        &&& self.scrollback_limit == o.scrollback_limit
-        &&& self.xtwinops == o.xtwinops
     }
 
     pub open spec fn dirty(&self, r: int) -> bool { self.dirty_lines.0@[r] }
@@ -262,13 +229,256 @@ pub proof fn finding_c04_wrap_mark_inner(o: Terminal, f: Terminal, ch: char)
 {
 }
 
-/// [C02] the invariant does not mention the pen or the mode flags
-pub proof fn lemma_wf_frame(o: Terminal, f: Terminal, m: Fm)
+/// [C02] the invariant does not mention the pen
+pub proof fn lemma_wf_frame_pen(o: Terminal, f: Terminal)
     requires
         o.wf(),
-        f.frame(o, m),
-        !m.cursor && !m.buffer && !m.dirty && !m.tabs && !m.margins && !m.saved && !m.charsets && !m.other && !m.geom,
+        f.frame_pen(o),
     ensures
         f.wf(),
 {
 }
+
+/// [C02] the invariant does not mention the mode flags
+pub proof fn lemma_wf_frame_modes(o: Terminal, f: Terminal)
+    requires
+        o.wf(),
+        f.frame_modes(o),
+    ensures
+        f.wf(),
+{
+}
+
+impl Terminal {
+    /// [C19] every field is what `Terminal::new((cols, rows), limit)` produces
+    pub open spec fn is_fresh(&self, cols: int, rows: int, limit: Option<usize>) -> bool {
+        &&& self.cols == cols
+        &&& self.rows == rows
+        &&& self.buffer.is_fresh(cols, rows, limit, Pen::default_spec())
+        &&& self.other_buffer.is_fresh(cols, rows, Some(0usize), Pen::default_spec())
+        &&& self.active_buffer_type == BufferType::Primary
+        &&& self.scrollback_limit == limit
+        &&& self.cursor == (Cursor { col: 0, row: 0, visible: true })
+        &&& self.pen == Pen::default_spec()
+        &&& self.charsets[0] == Charset::Ascii
+        &&& self.charsets[1] == Charset::Ascii
+        &&& self.active_charset == 0
+        &&& self.tabs.0@ == default_tabs(cols)
+        &&& !self.insert_mode
+        &&& !self.origin_mode
+        &&& self.auto_wrap_mode
+        &&& !self.new_line_mode
+        &&& self.cursor_keys_mode == CursorKeysMode::Normal
+        &&& !self.pending_wrap
+        &&& self.top_margin == 0
+        &&& self.bottom_margin == rows - 1
+        &&& self.saved_ctx == saved_default()
+        &&& self.alternate_saved_ctx == saved_default()
+        &&& self.dirty_lines.0@.len() == rows
+        &&& (forall|r: int| 0 <= r < rows ==> #[trigger] self.dirty_lines.0@[r])
+    }
+}
+
+/// [C18] the default stops are strictly increasing and lie in 1..cols
+pub proof fn lemma_default_tabs_wf(cols: int)
+    requires
+        1 <= cols <= MEM_MAX,
+    ensures
+        tabs_sorted(default_tabs(cols)),
+        forall|i: int| 0 <= i < default_tabs(cols).len() ==> 0 < (#[trigger] default_tabs(cols)[i]) < cols,
+{
+    reveal(tabs_sorted);
+}
+
+// GENERATED-FRAMES-BEGIN (gen_frames.py)
+impl Terminal {
+    /// frame: every group except {buffer, dirty} is exactly what it was in `o`
+    pub open spec fn frame_buffer_dirty(&self, o: Terminal) -> bool {
+        &&& self.cursor.col == o.cursor.col && self.cursor.row == o.cursor.row && self.pending_wrap == o.pending_wrap
+        &&& self.pen == o.pen
+        &&& self.tabs == o.tabs
+        &&& self.top_margin == o.top_margin && self.bottom_margin == o.bottom_margin
+        &&& self.saved_ctx == o.saved_ctx
+        &&& self.insert_mode == o.insert_mode && self.origin_mode == o.origin_mode && self.auto_wrap_mode == o.auto_wrap_mode && self.new_line_mode == o.new_line_mode && self.cursor_keys_mode == o.cursor_keys_mode && self.cursor.visible == o.cursor.visible
+        &&& self.charsets == o.charsets && self.active_charset == o.active_charset
+        &&& self.other_buffer == o.other_buffer && self.alternate_saved_ctx == o.alternate_saved_ctx && self.active_buffer_type == o.active_buffer_type
+        &&& self.cols == o.cols && self.rows == o.rows
+        &&& self.scrollback_limit == o.scrollback_limit
+        &&& self.xtwinops == o.xtwinops
+    }
+    /// frame: every group except {buffer, dirty, saved, other} is exactly what it was in `o`
+    pub open spec fn frame_buffer_dirty_saved_other(&self, o: Terminal) -> bool {
+        &&& self.cursor.col == o.cursor.col && self.cursor.row == o.cursor.row && self.pending_wrap == o.pending_wrap
+        &&& self.pen == o.pen
+        &&& self.tabs == o.tabs
+        &&& self.top_margin == o.top_margin && self.bottom_margin == o.bottom_margin
+        &&& self.insert_mode == o.insert_mode && self.origin_mode == o.origin_mode && self.auto_wrap_mode == o.auto_wrap_mode && self.new_line_mode == o.new_line_mode && self.cursor_keys_mode == o.cursor_keys_mode && self.cursor.visible == o.cursor.visible
+        &&& self.charsets == o.charsets && self.active_charset == o.active_charset
+        &&& self.cols == o.cols && self.rows == o.rows
+        &&& self.scrollback_limit == o.scrollback_limit
+        &&& self.xtwinops == o.xtwinops
+    }
+    /// frame: every group except {charsets} is exactly what it was in `o`
+    pub open spec fn frame_charsets(&self, o: Terminal) -> bool {
+        &&& self.cursor.col == o.cursor.col && self.cursor.row == o.cursor.row && self.pending_wrap == o.pending_wrap
+        &&& self.buffer == o.buffer
+        &&& self.dirty_lines == o.dirty_lines
+        &&& self.pen == o.pen
+        &&& self.tabs == o.tabs
+        &&& self.top_margin == o.top_margin && self.bottom_margin == o.bottom_margin
+        &&& self.saved_ctx == o.saved_ctx
+        &&& self.insert_mode == o.insert_mode && self.origin_mode == o.origin_mode && self.auto_wrap_mode == o.auto_wrap_mode && self.new_line_mode == o.new_line_mode && self.cursor_keys_mode == o.cursor_keys_mode && self.cursor.visible == o.cursor.visible
+        &&& self.other_buffer == o.other_buffer && self.alternate_saved_ctx == o.alternate_saved_ctx && self.active_buffer_type == o.active_buffer_type
+        &&& self.cols == o.cols && self.rows == o.rows
+        &&& self.scrollback_limit == o.scrollback_limit
+        &&& self.xtwinops == o.xtwinops
+    }
+    /// frame: every group except {cursor} is exactly what it was in `o`
+    pub open spec fn frame_cursor(&self, o: Terminal) -> bool {
+        &&& self.buffer == o.buffer
+        &&& self.dirty_lines == o.dirty_lines
+        &&& self.pen == o.pen
+        &&& self.tabs == o.tabs
+        &&& self.top_margin == o.top_margin && self.bottom_margin == o.bottom_margin
+        &&& self.saved_ctx == o.saved_ctx
+        &&& self.insert_mode == o.insert_mode && self.origin_mode == o.origin_mode && self.auto_wrap_mode == o.auto_wrap_mode && self.new_line_mode == o.new_line_mode && self.cursor_keys_mode == o.cursor_keys_mode && self.cursor.visible == o.cursor.visible
+        &&& self.charsets == o.charsets && self.active_charset == o.active_charset
+        &&& self.other_buffer == o.other_buffer && self.alternate_saved_ctx == o.alternate_saved_ctx && self.active_buffer_type == o.active_buffer_type
+        &&& self.cols == o.cols && self.rows == o.rows
+        &&& self.scrollback_limit == o.scrollback_limit
+        &&& self.xtwinops == o.xtwinops
+    }
+    /// frame: every group except {cursor, buffer, dirty} is exactly what it was in `o`
+    pub open spec fn frame_cursor_buffer_dirty(&self, o: Terminal) -> bool {
+        &&& self.pen == o.pen
+        &&& self.tabs == o.tabs
+        &&& self.top_margin == o.top_margin && self.bottom_margin == o.bottom_margin
+        &&& self.saved_ctx == o.saved_ctx
+        &&& self.insert_mode == o.insert_mode && self.origin_mode == o.origin_mode && self.auto_wrap_mode == o.auto_wrap_mode && self.new_line_mode == o.new_line_mode && self.cursor_keys_mode == o.cursor_keys_mode && self.cursor.visible == o.cursor.visible
+        &&& self.charsets == o.charsets && self.active_charset == o.active_charset
+        &&& self.other_buffer == o.other_buffer && self.alternate_saved_ctx == o.alternate_saved_ctx && self.active_buffer_type == o.active_buffer_type
+        &&& self.cols == o.cols && self.rows == o.rows
+        &&& self.scrollback_limit == o.scrollback_limit
+        &&& self.xtwinops == o.xtwinops
+    }
+    /// frame: every group except {cursor, buffer, dirty, saved} is exactly what it was in `o`
+    pub open spec fn frame_cursor_buffer_dirty_saved(&self, o: Terminal) -> bool {
+        &&& self.pen == o.pen
+        &&& self.tabs == o.tabs
+        &&& self.top_margin == o.top_margin && self.bottom_margin == o.bottom_margin
+        &&& self.insert_mode == o.insert_mode && self.origin_mode == o.origin_mode && self.auto_wrap_mode == o.auto_wrap_mode && self.new_line_mode == o.new_line_mode && self.cursor_keys_mode == o.cursor_keys_mode && self.cursor.visible == o.cursor.visible
+        &&& self.charsets == o.charsets && self.active_charset == o.active_charset
+        &&& self.other_buffer == o.other_buffer && self.alternate_saved_ctx == o.alternate_saved_ctx && self.active_buffer_type == o.active_buffer_type
+        &&& self.cols == o.cols && self.rows == o.rows
+        &&& self.scrollback_limit == o.scrollback_limit
+        &&& self.xtwinops == o.xtwinops
+    }
+    /// frame: every group except {cursor, buffer, dirty, tabs, margins, saved, geom} is exactly what it was in `o`
+    pub open spec fn frame_cursor_buffer_dirty_tabs_margins_saved_geom(&self, o: Terminal) -> bool {
+        &&& self.pen == o.pen
+        &&& self.insert_mode == o.insert_mode && self.origin_mode == o.origin_mode && self.auto_wrap_mode == o.auto_wrap_mode && self.new_line_mode == o.new_line_mode && self.cursor_keys_mode == o.cursor_keys_mode && self.cursor.visible == o.cursor.visible
+        &&& self.charsets == o.charsets && self.active_charset == o.active_charset
+        &&& self.other_buffer == o.other_buffer && self.alternate_saved_ctx == o.alternate_saved_ctx && self.active_buffer_type == o.active_buffer_type
+        &&& self.scrollback_limit == o.scrollback_limit
+        &&& self.xtwinops == o.xtwinops
+    }
+    /// frame: every group except {cursor, margins} is exactly what it was in `o`
+    pub open spec fn frame_cursor_margins(&self, o: Terminal) -> bool {
+        &&& self.buffer == o.buffer
+        &&& self.dirty_lines == o.dirty_lines
+        &&& self.pen == o.pen
+        &&& self.tabs == o.tabs
+        &&& self.saved_ctx == o.saved_ctx
+        &&& self.insert_mode == o.insert_mode && self.origin_mode == o.origin_mode && self.auto_wrap_mode == o.auto_wrap_mode && self.new_line_mode == o.new_line_mode && self.cursor_keys_mode == o.cursor_keys_mode && self.cursor.visible == o.cursor.visible
+        &&& self.charsets == o.charsets && self.active_charset == o.active_charset
+        &&& self.other_buffer == o.other_buffer && self.alternate_saved_ctx == o.alternate_saved_ctx && self.active_buffer_type == o.active_buffer_type
+        &&& self.cols == o.cols && self.rows == o.rows
+        &&& self.scrollback_limit == o.scrollback_limit
+        &&& self.xtwinops == o.xtwinops
+    }
+    /// frame: every group except {cursor, pen, modes} is exactly what it was in `o`
+    pub open spec fn frame_cursor_pen_modes(&self, o: Terminal) -> bool {
+        &&& self.buffer == o.buffer
+        &&& self.dirty_lines == o.dirty_lines
+        &&& self.tabs == o.tabs
+        &&& self.top_margin == o.top_margin && self.bottom_margin == o.bottom_margin
+        &&& self.saved_ctx == o.saved_ctx
+        &&& self.charsets == o.charsets && self.active_charset == o.active_charset
+        &&& self.other_buffer == o.other_buffer && self.alternate_saved_ctx == o.alternate_saved_ctx && self.active_buffer_type == o.active_buffer_type
+        &&& self.cols == o.cols && self.rows == o.rows
+        &&& self.scrollback_limit == o.scrollback_limit
+        &&& self.xtwinops == o.xtwinops
+    }
+    /// frame: every group except {modes} is exactly what it was in `o`
+    pub open spec fn frame_modes(&self, o: Terminal) -> bool {
+        &&& self.cursor.col == o.cursor.col && self.cursor.row == o.cursor.row && self.pending_wrap == o.pending_wrap
+        &&& self.buffer == o.buffer
+        &&& self.dirty_lines == o.dirty_lines
+        &&& self.pen == o.pen
+        &&& self.tabs == o.tabs
+        &&& self.top_margin == o.top_margin && self.bottom_margin == o.bottom_margin
+        &&& self.saved_ctx == o.saved_ctx
+        &&& self.charsets == o.charsets && self.active_charset == o.active_charset
+        &&& self.other_buffer == o.other_buffer && self.alternate_saved_ctx == o.alternate_saved_ctx && self.active_buffer_type == o.active_buffer_type
+        &&& self.cols == o.cols && self.rows == o.rows
+        &&& self.scrollback_limit == o.scrollback_limit
+        &&& self.xtwinops == o.xtwinops
+    }
+    /// frame: every group except {pen} is exactly what it was in `o`
+    pub open spec fn frame_pen(&self, o: Terminal) -> bool {
+        &&& self.cursor.col == o.cursor.col && self.cursor.row == o.cursor.row && self.pending_wrap == o.pending_wrap
+        &&& self.buffer == o.buffer
+        &&& self.dirty_lines == o.dirty_lines
+        &&& self.tabs == o.tabs
+        &&& self.top_margin == o.top_margin && self.bottom_margin == o.bottom_margin
+        &&& self.saved_ctx == o.saved_ctx
+        &&& self.insert_mode == o.insert_mode && self.origin_mode == o.origin_mode && self.auto_wrap_mode == o.auto_wrap_mode && self.new_line_mode == o.new_line_mode && self.cursor_keys_mode == o.cursor_keys_mode && self.cursor.visible == o.cursor.visible
+        &&& self.charsets == o.charsets && self.active_charset == o.active_charset
+        &&& self.other_buffer == o.other_buffer && self.alternate_saved_ctx == o.alternate_saved_ctx && self.active_buffer_type == o.active_buffer_type
+        &&& self.cols == o.cols && self.rows == o.rows
+        &&& self.scrollback_limit == o.scrollback_limit
+        &&& self.xtwinops == o.xtwinops
+    }
+    /// frame: every group except {pen, margins, saved, modes, charsets} is exactly what it was in `o`
+    pub open spec fn frame_pen_margins_saved_modes_charsets(&self, o: Terminal) -> bool {
+        &&& self.cursor.col == o.cursor.col && self.cursor.row == o.cursor.row && self.pending_wrap == o.pending_wrap
+        &&& self.buffer == o.buffer
+        &&& self.dirty_lines == o.dirty_lines
+        &&& self.tabs == o.tabs
+        &&& self.other_buffer == o.other_buffer && self.alternate_saved_ctx == o.alternate_saved_ctx && self.active_buffer_type == o.active_buffer_type
+        &&& self.cols == o.cols && self.rows == o.rows
+        &&& self.scrollback_limit == o.scrollback_limit
+        &&& self.xtwinops == o.xtwinops
+    }
+    /// frame: every group except {saved} is exactly what it was in `o`
+    pub open spec fn frame_saved(&self, o: Terminal) -> bool {
+        &&& self.cursor.col == o.cursor.col && self.cursor.row == o.cursor.row && self.pending_wrap == o.pending_wrap
+        &&& self.buffer == o.buffer
+        &&& self.dirty_lines == o.dirty_lines
+        &&& self.pen == o.pen
+        &&& self.tabs == o.tabs
+        &&& self.top_margin == o.top_margin && self.bottom_margin == o.bottom_margin
+        &&& self.insert_mode == o.insert_mode && self.origin_mode == o.origin_mode && self.auto_wrap_mode == o.auto_wrap_mode && self.new_line_mode == o.new_line_mode && self.cursor_keys_mode == o.cursor_keys_mode && self.cursor.visible == o.cursor.visible
+        &&& self.charsets == o.charsets && self.active_charset == o.active_charset
+        &&& self.other_buffer == o.other_buffer && self.alternate_saved_ctx == o.alternate_saved_ctx && self.active_buffer_type == o.active_buffer_type
+        &&& self.cols == o.cols && self.rows == o.rows
+        &&& self.scrollback_limit == o.scrollback_limit
+        &&& self.xtwinops == o.xtwinops
+    }
+    /// frame: every group except {tabs} is exactly what it was in `o`
+    pub open spec fn frame_tabs(&self, o: Terminal) -> bool {
+        &&& self.cursor.col == o.cursor.col && self.cursor.row == o.cursor.row && self.pending_wrap == o.pending_wrap
+        &&& self.buffer == o.buffer
+        &&& self.dirty_lines == o.dirty_lines
+        &&& self.pen == o.pen
+        &&& self.top_margin == o.top_margin && self.bottom_margin == o.bottom_margin
+        &&& self.saved_ctx == o.saved_ctx
+        &&& self.insert_mode == o.insert_mode && self.origin_mode == o.origin_mode && self.auto_wrap_mode == o.auto_wrap_mode && self.new_line_mode == o.new_line_mode && self.cursor_keys_mode == o.cursor_keys_mode && self.cursor.visible == o.cursor.visible
+        &&& self.charsets == o.charsets && self.active_charset == o.active_charset
+        &&& self.other_buffer == o.other_buffer && self.alternate_saved_ctx == o.alternate_saved_ctx && self.active_buffer_type == o.active_buffer_type
+        &&& self.cols == o.cols && self.rows == o.rows
+        &&& self.scrollback_limit == o.scrollback_limit
+        &&& self.xtwinops == o.xtwinops
+    }
+}
+// GENERATED-FRAMES-END
